@@ -641,7 +641,12 @@ def run_history(W, rec, cls, init, hist):
                 return
             rec.violation(classify(cls, op, "return"), f"{cls}({init!r}) history {hist[:i + 1]!r}: returned {r!r}, model {e!r}", case, monitor="model")
             return
-        a, b = reads_f(real), mreads_f(W, model)
+        try:
+            a, b = reads_f(real), mreads_f(W, model)
+        except Exception as ex:
+            rec.violation(f"C08/{cls}:{op[0]}:read-raises-{type(ex).__name__}", f"{cls}({init!r}) history {hist[:i + 1]!r}: {ex!r}", case, monitor="model")
+            contracts.LOG.take()
+            return
         for kk in a:
             if a[kk] != b[kk]:
                 rec.violation(classify(cls, op, "read-" + kk.rstrip("aAbB")), f"{cls}({init!r}) history {hist[:i + 1]!r} read {kk}: real {a[kk]!r} model {b[kk]!r}", case, monitor="model")
@@ -689,7 +694,12 @@ def run(shard, rec, rng):
     install_contracts(W)
     cfg = TIERS[shard["_tier"]]
     if shard["kind"] == "laws":
-        laws(W, rec)
+        try:
+            laws(W, rec)
+        except Exception as ex:
+            import traceback
+
+            rec.violation(f"C08/laws-raise-{type(ex).__name__}", "".join(traceback.format_exception(ex))[-1200:], {"law": "laws shard"}, monitor="law")
         reach.finish()
         contracts.report(rec)
         never = [k for k, v in reach.entries.items() if v == 0]
